@@ -1,0 +1,340 @@
+//go:build verif
+
+package engine
+
+// Facade extension used by the verification harness (/verif), property C09: run an InfluxQL
+// SELECT against one stand-alone shard the way a single-node server (ts-server) does: the
+// statement is compiled and planned by executor.Select (heuristic planner, plan templates),
+// the store part of the plan is executed in-process through the local-storage path
+// (IndexScanTransform -> shard.CreateLogicalPlan -> ChunkReader -> aggregate transforms).
+// Nothing here is compiled without the `verif` build tag.
+
+import (
+	"context"
+	"fmt"
+	"path/filepath"
+	"runtime/debug"
+	"strings"
+	"sync"
+
+	"github.com/openGemini/openGemini/engine/executor"
+	"github.com/openGemini/openGemini/engine/hybridqp"
+	"github.com/openGemini/openGemini/engine/immutable"
+	"github.com/openGemini/openGemini/lib/config"
+	"github.com/openGemini/openGemini/lib/errno"
+	"github.com/openGemini/openGemini/lib/index"
+	"github.com/openGemini/openGemini/lib/record"
+	"github.com/openGemini/openGemini/lib/resourceallocator"
+	"github.com/openGemini/openGemini/lib/statisticsPusher/statistics"
+	"github.com/openGemini/openGemini/lib/util/lifted/influx/influxql"
+	"github.com/openGemini/openGemini/lib/util/lifted/influx/query"
+)
+
+// verifStore is the hybridqp.StoreEngine the local-storage query path talks to.
+type verifStore struct {
+	mu sync.Mutex
+	sh *shard
+}
+
+var verifLocalStore = &verifStore{}
+var verifLocalStoreOnce sync.Once
+
+func (s *verifStore) ReportLoad() {}
+func (s *verifStore) CreateLogicPlan(ctx context.Context, db string, ptId uint32, shardID []uint64, sources influxql.Sources, schema hybridqp.Catalog) (hybridqp.QueryNode, error) {
+	qs, ok := schema.(*executor.QuerySchema)
+	if !ok {
+		return nil, fmt.Errorf("unexpected schema type %T", schema)
+	}
+	return s.sh.CreateLogicalPlan(ctx, sources, qs)
+}
+func (s *verifStore) ScanWithSparseIndex(ctx context.Context, db string, ptId uint32, shardIDS []uint64, schema hybridqp.Catalog) (hybridqp.IShardsFragments, error) {
+	return nil, fmt.Errorf("verif store: no sparse index")
+}
+func (s *verifStore) GetIndexInfo(db string, ptId uint32, shardID uint64, schema hybridqp.Catalog) (interface{}, error) {
+	return nil, fmt.Errorf("verif store: no column store")
+}
+func (s *verifStore) RowCount(db string, ptId uint32, shardIDS []uint64, schema hybridqp.Catalog) (int64, error) {
+	return 0, fmt.Errorf("verif store: no row count")
+}
+func (s *verifStore) UnrefEngineDbPt(db string, ptId uint32)                             {}
+func (s *verifStore) GetShardDownSampleLevel(db string, ptId uint32, shardID uint64) int { return 0 }
+
+// verifShardGroup plays the part of coordinator.ClusterShardMapping for one shard: field
+// types come from the caller, the store plan is built by the same builder calls.
+type verifShardGroup struct {
+	fields map[string]influxql.DataType
+	tags   map[string]struct{}
+}
+
+func (g *verifShardGroup) MapShards(stmt *influxql.SelectStatement, t influxql.TimeRange, opt query.SelectOptions, condition influxql.Expr) (query.ShardGroup, error) {
+	for _, s := range stmt.Sources {
+		if m, ok := s.(*influxql.Measurement); ok {
+			m.Database, m.RetentionPolicy = "db0", "rp0"
+			m.EngineType = config.TSSTORE
+		}
+	}
+	return g, nil
+}
+func (g *verifShardGroup) Close() error { return nil }
+
+func (g *verifShardGroup) FieldDimensions(m *influxql.Measurement) (map[string]influxql.DataType, map[string]struct{}, *influxql.Schema, error) {
+	f := map[string]influxql.DataType{}
+	d := map[string]struct{}{}
+	for k, v := range g.fields {
+		f[k] = v
+	}
+	for k := range g.tags {
+		d[k] = struct{}{}
+	}
+	return f, d, &influxql.Schema{}, nil
+}
+func (g *verifShardGroup) MapType(m *influxql.Measurement, field string) influxql.DataType {
+	if t, ok := g.fields[field]; ok {
+		return t
+	}
+	if _, ok := g.tags[field]; ok {
+		return influxql.Tag
+	}
+	return influxql.Unknown
+}
+func (g *verifShardGroup) MapTypeBatch(m *influxql.Measurement, fields map[string]*influxql.FieldNameSpace, schema *influxql.Schema) error {
+	for k := range fields {
+		fields[k].DataType = g.MapType(m, k)
+	}
+	return nil
+}
+func (g *verifShardGroup) LogicalPlanCost(*influxql.Measurement, query.ProcessorOptions) (hybridqp.LogicalPlanCost, error) {
+	return hybridqp.LogicalPlanCost{}, nil
+}
+func (g *verifShardGroup) GetSources(sources influxql.Sources) influxql.Sources {
+	var out influxql.Sources
+	for _, s := range sources {
+		if m, ok := s.(*influxql.Measurement); ok {
+			c := m.Clone()
+			c.Regex = nil
+			out = append(out, c)
+		} else {
+			out = append(out, s)
+		}
+	}
+	return out
+}
+func (g *verifShardGroup) GetETraits(ctx context.Context, sources influxql.Sources, schema hybridqp.Catalog) ([]hybridqp.Trait, error) {
+	opts, ok := schema.Options().(*query.ProcessorOptions)
+	if !ok {
+		return nil, fmt.Errorf("unexpected options type")
+	}
+	src := g.GetSources(sources)
+	o := *opts
+	o.Sources = src
+	rq := &executor.RemoteQuery{Database: "db0", PtID: 1, NodeID: 0, ShardIDs: []uint64{1}, Opt: o}
+	opts.Sources = src
+	return []hybridqp.Trait{rq}, nil
+}
+func (g *verifShardGroup) GetSeriesKey() []byte { return nil }
+func (g *verifShardGroup) GetTagKeys(*influxql.ShowTagValuesStatement) (map[string]map[string]struct{}, error) {
+	return nil, nil
+}
+func (g *verifShardGroup) GetTagVals(uint64, *influxql.ShowTagValuesStatement, []uint32, map[string]map[string]struct{}, bool) (influxql.TablesTagSets, error) {
+	return nil, nil
+}
+func (g *verifShardGroup) QueryNodePtsMap(string) (map[uint64][]uint32, error) { return nil, nil }
+func (g *verifShardGroup) CheckDatabaseExists(string) error                    { return nil }
+
+// CreateLogicalPlan is coordinator.ClusterShardMapping.CreateLogicalPlan for a ts-store source.
+func (g *verifShardGroup) CreateLogicalPlan(ctx context.Context, sources influxql.Sources, schema hybridqp.Catalog) (hybridqp.QueryNode, error) {
+	eTraits, err := g.GetETraits(ctx, sources, schema)
+	if len(eTraits) == 0 || err != nil {
+		return nil, err
+	}
+	builder := executor.NewLogicalPlanBuilderImpl(schema)
+	plan, err := builder.CreateSeriesPlan()
+	if err != nil {
+		return nil, err
+	}
+	if plan, err = builder.CreateMeasurementPlan(plan); err != nil {
+		return nil, err
+	}
+	if plan, err = builder.CreateScanPlan(plan); err != nil {
+		return nil, err
+	}
+	if plan, err = builder.CreateShardPlan(plan); err != nil {
+		return nil, err
+	}
+	if plan.Schema().Options().CanQueryPushDown() {
+		nodeTraits, ok := ctx.Value(hybridqp.NodeTrait).(*[]hybridqp.Trait)
+		if !ok {
+			return nil, errno.NewError(errno.NoNodeTraits)
+		}
+		*nodeTraits = append(*nodeTraits, eTraits...)
+		return plan, nil
+	}
+	return builder.CreateNodePlan(plan, eTraits)
+}
+
+// VerifSeries is one result series of a query.
+type VerifSeries struct {
+	Name    string
+	Tags    map[string]string
+	Columns []string
+	Values  [][]interface{}
+}
+
+var verifQueryMu sync.Mutex
+
+// Query runs one InfluxQL SELECT statement against the shard. fields gives the type of every
+// field of the measurement, tags its tag keys. innerChunkSize is the executor's chunk size
+// (0 = default 1024).
+func (v *VerifShard) Query(q string, fields map[string]influxql.DataType, tags []string, innerChunkSize int) (out []VerifSeries, err error) {
+	verifQueryMu.Lock()
+	defer verifQueryMu.Unlock()
+	defer func() {
+		if r := recover(); r != nil {
+			err = fmt.Errorf("panic while querying: %v\n%s", r, debug.Stack())
+		}
+	}()
+	verifLocalStoreOnce.Do(func() {
+		executor.SetLocalStorageForQuery(verifLocalStore)
+		executor.InitLocalStoreTemplatePlan()
+	})
+	verifLocalStore.sh = v.sh
+
+	p := influxql.NewParser(strings.NewReader(q))
+	defer p.Release()
+	yy := influxql.NewYyParser(p.GetScanner(), p.GetPara())
+	yy.ParseTokens()
+	pq, err := yy.GetQuery()
+	if err != nil {
+		return nil, fmt.Errorf("parse: %w", err)
+	}
+	if len(pq.Statements) != 1 {
+		return nil, fmt.Errorf("expected one statement")
+	}
+	stmt, ok := pq.Statements[0].(*influxql.SelectStatement)
+	if !ok {
+		return nil, fmt.Errorf("not a select statement")
+	}
+	stmt.OmitTime = true
+	g := &verifShardGroup{fields: fields, tags: map[string]struct{}{}}
+	for _, t := range tags {
+		g.tags[t] = struct{}{}
+	}
+	if innerChunkSize <= 0 {
+		innerChunkSize = 1024
+	}
+	rc := make(chan query.RowsChan)
+	sopt := query.SelectOptions{ChunkSize: innerChunkSize, ChunkedSize: 1 << 30, RowsChan: rc}
+	ctx := context.WithValue(context.Background(), query.QueryDurationKey, (*statistics.SQLSlowQueryStatistics)(nil))
+	ctx = context.WithValue(ctx, query.QueryIDKey, []uint64{1})
+	ex, err := executor.Select(ctx, stmt, g, sopt)
+	if err != nil {
+		return nil, err
+	}
+	if ex == nil {
+		return nil, nil
+	}
+	pe, ok := ex.(*executor.PipelineExecutor)
+	if !ok {
+		return nil, fmt.Errorf("unexpected executor %T", ex)
+	}
+	ec := make(chan error, 1)
+	go func() {
+		defer close(rc)
+		defer func() {
+			if r := recover(); r != nil {
+				ec <- fmt.Errorf("panic in executor: %v\n%s", r, debug.Stack())
+			}
+		}()
+		var st int32
+		c := context.WithValue(context.Background(), index.QueryIndexState, &st)
+		ec <- pe.ExecuteExecutor(c)
+	}()
+	for r := range rc {
+		for _, row := range r.Rows {
+			s := VerifSeries{Name: row.Name, Tags: row.Tags, Columns: row.Columns}
+			s.Values = append(s.Values, row.Values...)
+			out = append(out, s)
+		}
+	}
+	if e := <-ec; e != nil {
+		return out, e
+	}
+	return out, nil
+}
+
+// VerifSetMaxRowsPerSegment sets the configuration item data.max-rows-per-segment for files
+// written from now on (n <= 0 restores the default).
+func VerifSetMaxRowsPerSegment(n int) { immutable.VerifSetMaxRowsPerSegment(n) }
+
+// VerifChunkLayout is one series of one data file: its segments (rows as VerifRow with one
+// value per column of Columns) and the statistics record stored per column.
+type VerifChunkLayout struct {
+	Sid       uint64
+	SegRanges [][2]int64
+	Columns   []VerifField // without time
+	Segments  [][]VerifRow
+	Stats     []immutable.VerifColStats // per column, time column last
+}
+
+// VerifFileLayout is one data file with its chunks.
+type VerifFileLayout struct {
+	VerifFile
+	Chunks []VerifChunkLayout
+}
+
+// Layout reads every data file of a measurement chunk by chunk (ordered files first, each
+// list in the shard's own order).
+func (v *VerifShard) Layout(mst string) (out []VerifFileLayout, err error) {
+	for _, order := range []bool{true, false} {
+		fs, ok := v.sh.immTables.GetTSSPFiles(mst, order)
+		if !ok || fs == nil {
+			continue
+		}
+		files := fs.Files()
+		for _, f := range files {
+			lv, seq := f.LevelAndSequence()
+			mn, mx, _ := f.MinMaxTime()
+			fl := VerifFileLayout{VerifFile: VerifFile{Name: filepath.Base(f.Path()), Order: order, Level: lv, Seq: seq, MinTime: mn, MaxTime: mx, FileSize: f.FileSize()}}
+			chunks, e := immutable.VerifReadChunks(f)
+			if e != nil && err == nil {
+				err = fmt.Errorf("%s: %w", f.Path(), e)
+			}
+			for _, c := range chunks {
+				cl := VerifChunkLayout{Sid: c.Sid, SegRanges: c.SegRanges, Stats: c.Stats}
+				for _, st := range c.Stats[:len(c.Stats)-1] {
+					cl.Columns = append(cl.Columns, VerifField{Name: st.Name, Type: record.ToInfluxqlTypes(st.Type)})
+				}
+				for _, rec := range c.Segments {
+					cl.Segments = append(cl.Segments, appendVerifRows(nil, rec, "", cl.Columns))
+				}
+				fl.Chunks = append(fl.Chunks, cl)
+			}
+			out = append(out, fl)
+		}
+		immutable.UnrefFilesReader(files...)
+		immutable.UnrefFiles(files...)
+	}
+	return out, err
+}
+
+// SeriesIDs maps the series keys of a measurement to their series ids.
+func (v *VerifShard) SeriesIDs(mst string, anyField VerifField) (map[uint64]string, error) {
+	ref := influxql.VarRef{Val: anyField.Name, Type: anyField.Type}
+	opt := &query.ProcessorOptions{Name: mst, Ascending: true, FieldAux: []influxql.VarRef{ref}, MaxParallel: 1, ChunkSize: 1024,
+		StartTime: influxql.MinTime, EndTime: influxql.MaxTime}
+	schema := executor.NewQuerySchema(influxql.Fields{&influxql.Field{Expr: &ref}}, []string{ref.Val}, opt, nil)
+	schema.Options().SetCtx(context.Background())
+	groups, n, _, err := v.sh.Scan(nil, schema, resourceallocator.DefaultSeriesAllocateFunc)
+	defer func() { _ = resourceallocator.FreeRes(resourceallocator.SeriesParallelismRes, n, n) }()
+	if err != nil {
+		return nil, err
+	}
+	out := map[uint64]string{}
+	for _, g := range groups {
+		for i := 0; i < g.Len(); i++ {
+			it := g.GetTagSetItem(i)
+			out[it.ID] = string(it.SeriesKey)
+		}
+	}
+	return out, nil
+}
